@@ -27,7 +27,8 @@ RULE = ("kernel level: the full tie grid (every end point, every value exactly o
         "three consistent kernels; function level: structured random cases (1-3 dims of size 1-3, obs / weights / end-point arrays on random "
         "subsets of the dims or on an extra dim, values and end points on the dyadic grid k/2 so that values sit exactly on end points, "
         "finite / infinite / per-dimension end points, rectangular and trapezoidal shapes, alpha and Huber parameters from a grid, all "
-        "request spellings, NaN injected) plus a malformed stream; a case is distinct by the hash of (function, inputs, options) and "
+        "request spellings, NaN injected) plus a malformed stream; a near-tie stream off the grid (arbitrary binary64 values of magnitude 1e-9 .. 1e9 "
+        "and 0, forecast errors of relative size 1e-11 .. 1e-1 or absolute size 1e-14 .. 1e-8, exact ties) against the exact oracle; a case is distinct by the hash of (function, inputs, options) and "
         "non-trivial when it yields a finite value or exercises an error path")
 ASSUMPTIONS = ["labelled inputs carry identical label sets along shared dimensions (storage order, dimension order and scalar / array end points vary freely)"]
 TRUSTED = ["R-level theorems (coq/proofs/C10_RInt*.v): Coq Reals + Coquelicot 3.x and their standard axioms, as listed per theorem"]
@@ -870,6 +871,195 @@ def int_dtype_corpus(ctx):
 
 
 
+# magnitude classes of real data for the near-tie stream: (name, low, high) of |obs|; the forecast error is drawn RELATIVE to it
+MAGNITUDES = [("kelvin", 200.0, 330.0), ("pascal", 9.0e4, 1.1e5), ("geopotential_m", 4.0e3, 6.0e4), ("epoch_s", 1.5e9, 1.8e9),
+              ("order_one", 0.1, 10.0), ("tiny", 1e-9, 1e-3), ("zero", 0.0, 0.0)]
+EPS64 = 2.0 ** -52
+
+
+def near_tie_props(ctx, rounds):
+    """forecast errors that are SMALL COMPARED WITH THE MAGNITUDE OF THE DATA (relative error 1e-11 .. 1e-1 at magnitudes 1e-9 .. 1e9 of
+    either sign, absolute errors 1e-14 .. 1e-8 around 0, exact ties, arbitrary binary64 values instead of the dyadic grid): the five tw_*
+    scores and the public consistent_* functions are evaluated against the exact rational oracle AT THE FLOATS GIVEN (Fraction(float) is
+    exact), for weight one, finite end points covering the data, an end point cutting the tiny interval between forecast and observation,
+    data inside a ramp of the trapezoid, one-sided infinite end points; pointwise and reduced.  The only tolerance beyond 1e-9 relative is
+    the rounding of the implementation's own binary64 operations, bounded by a few units in the last place of the largest operand
+    (linear family: 16 eps S; quadratic family: 64 eps S^2 with S = largest |value| or |end point| involved): a score for
+    fcst != obs that is far above this bound cannot come out as 0 (or as anything but the documented value)."""
+    rng = ctx.rng
+    C = S()
+    T = TW()
+    decisive = bad_rounds = 0
+    for _ in range(rounds):
+        if not ctx.time_left():
+            break
+        cls, mlo, mhi = rng.choice(MAGNITUDES)
+        n = rng.randint(2, 5)
+        sign = rng.choice([1.0, 1.0, -1.0])
+        ov, fv, kinds = [], [], []
+        for i in range(n):
+            o = sign * rng.uniform(mlo, mhi)
+            kind = rng.choice(["tie", "near", "near", "near", "near", "abs", "far", "far"])
+            if cls == "zero" and kind in ("near", "far"):
+                kind = "abs" if kind == "near" else "farabs"
+            if kind == "tie":
+                f = o
+            elif kind == "near":
+                f = o + rng.choice([-1, 1]) * abs(o) * 10.0 ** -rng.uniform(5.05, 11.0)
+            elif kind == "abs":
+                f = o + rng.choice([-1, 1]) * 10.0 ** -rng.uniform(8.05, 14.0)
+            elif kind == "farabs":
+                f = o + rng.choice([-1, 1]) * 10.0 ** -rng.uniform(0.0, 7.0)
+            else:
+                f = o + rng.choice([-1, 1]) * abs(o) * 10.0 ** -rng.uniform(1.0, 4.9)
+            ov.append(o)
+            fv.append(f)
+            kinds.append(kind if f != o else "tie")
+        nan_at = rng.randrange(n) if rng.random() < 0.12 else None
+        nan_in_f = rng.random() < 0.5
+        allv = fv + ov
+        lo_d, hi_d = min(allv), max(allv)
+        scale = max(abs(lo_d), abs(hi_d), 1e-6)
+        pad = rng.choice([1.0, 0.01 * scale, 3.0 * scale, 0.5])
+        pad2 = rng.choice([1.0, 0.02 * scale, 2.0 * scale])
+        j = rng.randrange(n)
+        mid = fv[j] + (ov[j] - fv[j]) * rng.choice([0.25, 0.5, 0.75])        # an end point inside the tiny interval (or on the tie)
+        configs = {
+            "weight one": ((-INF, INF), None),
+            "weight one (trapezoid)": ((-INF, INF), (-INF, INF)),
+            "rect covering the data": ((lo_d - pad, hi_d + pad), None),
+            "trap plateau covering the data": ((lo_d - pad, hi_d + pad), (lo_d - pad - pad2, hi_d + pad + pad2)),
+            "rect cut below": ((mid, hi_d + pad), None),
+            "rect cut above": ((lo_d - pad, mid), None),
+            "rect cut, half-line": rng.choice([((mid, INF), None), ((-INF, mid), None)]),
+            "trap cut": ((mid, hi_d + pad), (mid - pad2, hi_d + pad + pad2)),
+            "data inside the left ramp": ((hi_d + pad, hi_d + pad + pad2), (lo_d - pad, hi_d + 2 * pad + pad2)),
+            "data inside the right ramp": ((lo_d - 2 * pad - pad2, lo_d - pad), (lo_d - 3 * pad - 2 * pad2, hi_d + pad)),
+            "half-line below": ((-INF, hi_d + pad), rng.choice([None, (-INF, hi_d + pad + pad2)])),
+            "half-line above": ((lo_d - pad, INF), rng.choice([None, (lo_d - pad - pad2, INF)])),
+        }
+        picked = ["weight one", rng.choice(sorted(set(configs) - {"weight one"}))]
+        perm_f = rng.sample(range(n), n)
+        perm_o = rng.sample(range(n), n) if rng.random() < 0.3 else perm_f     # (re-ordering by label is the expensive part of a call)
+        fa = [NAN if (nan_at == i and nan_in_f) else fv[i] for i in range(n)]
+        oa = [NAN if (nan_at == i and not nan_in_f) else ov[i] for i in range(n)]
+        F = xr.DataArray([fa[i] for i in perm_f], dims=["x"], coords={"x": perm_f})
+        O = xr.DataArray([oa[i] for i in perm_o], dims=["x"], coords={"x": perm_o})
+        valid = [i for i in range(n) if i != nan_at]
+        d0 = abs(Fr(fv[j]) - Fr(ov[j]))
+        alpha = rng.choice(ALPHAS)
+        hub = rng.choice(HUBERS + [None, None])
+        if hub is None:                     # Huber parameter of the size of the forecast error: both branches of the loss near a tie
+            hub = Fr(float(d0) * rng.choice([0.5, 2.0])) if d0 > 0 else Fr(1)
+        ctx.count("near_tie:" + cls)
+        far_lo, far_hi = Fr(lo_d) - 50, Fr(hi_d) + 50
+
+        def judge(what, case, got, wants, quad, s):
+            """got: floats per label; wants: exact values; the rounding allowance of the implementation's own operations"""
+            nonlocal decisive
+            allow = (64 * EPS64 * s * s) if quad else (16 * EPS64 * s)
+            for i in range(n):
+                if i == nan_at:
+                    ok = np.isnan(got[i])
+                    w = NAN
+                else:
+                    w = wants[i]
+                    ok = np.isfinite(got[i]) and abs(Fr(float(got[i])) - w) <= Fr(1, 10 ** 9) * abs(w) + Fr(allow)
+                    if w > 1000 * Fr(allow):
+                        decisive += 1
+                    if ok:
+                        used = float(abs(Fr(float(got[i])) - w) / (Fr(1, 10 ** 9) * abs(w) + Fr(allow)))
+                        ctx.dist["near_tie_max_fraction_of_allowance_used"] = round(max(ctx.dist.get("near_tie_max_fraction_of_allowance_used", 0.0), used), 4)
+                if not ok:
+                    ctx.violation(what, dict(case, label=i, fcst_minus_obs=float(Fr(fv[i]) - Fr(ov[i])), rounding_allowance=allow),
+                                  "nan" if i == nan_at else float(w), float(got[i]))
+                    return False
+            return True
+
+        base = {"fcst": fa, "obs": oa, "magnitude_class": cls, "storage_order": {"fcst": perm_f, "obs": perm_o}}
+        stop = False
+        for name in picked:
+            one, pos = configs[name]
+            fin = [abs(e) for e in one + (pos or ()) if abs(e) != INF]
+            s = max([abs(v) for v in allv] + fin) + 1.0
+            bb = far_lo if one[0] == -INF else Fr(one[0])
+            cc = far_hi if one[1] == INF else Fr(one[1])
+            if pos is None:
+                ends = (bb, cc)
+            else:
+                ends = ((far_lo - 1 if pos[0] == -INF else Fr(pos[0])), bb, cc, (far_hi + 1 if pos[1] == INF else Fr(pos[1])))
+            if not all(x < y for x, y in zip(ends, ends[1:])):
+                continue                                             # degenerate after rounding (pad below one ulp): not a valid weight
+            wants = {i: orc_tw(ends, alpha, hub, Fr(fv[i]), Fr(ov[i])) for i in valid}
+            # the two scores linear in the forecast error (decisive down to relative errors of 1e-11) and one of the three quadratic ones
+            fns = ["tw_absolute_error", "tw_quantile_score", rng.choice(["tw_squared_error", "tw_expectile_score", "tw_huber_loss"])]
+            kmean = FNS.index(rng.choice(fns))
+            for k, fn in enumerate(FNS):
+                if fn not in fns:
+                    continue
+                p = {"tw_quantile_score": alpha, "tw_expectile_score": alpha, "tw_huber_loss": hub}.get(fn)
+                case = dict(base, fn=fn, param=p if p is None or fn != "tw_huber_loss" else float(p), config=name, interval_where_one=one, interval_where_positive=pos)
+                st, v = call_tw(fn, F, O, p, one, pos, pd="all")
+                ctx.case(("neartie", fn, repr(case)))
+                if st != "ok":
+                    ctx.violation("tw_* raised on valid input", case, "values", v)
+                    stop = True
+                    break
+                got = v.sortby("x").values
+                quad = fn in ("tw_squared_error", "tw_expectile_score", "tw_huber_loss")
+                if not judge("tw_* of a forecast close to (not equal to) the observation differs from the documented value (exact oracle at the given floats)",
+                             case, got, {i: wants[i][k] for i in valid}, quad, s):
+                    stop = True
+                    break
+                if name == "weight one" and k == kmean:
+                    st2, v2 = call_tw(fn, F, O, p, one, pos)
+                    want = sum(wants[i][k] for i in valid) / len(valid)
+                    allow = (64 * EPS64 * s * s) if quad else (16 * EPS64 * s)
+                    if st2 != "ok" or abs(Fr(float(v2)) - want) > Fr(1, 10 ** 9) * abs(want) + Fr(allow):
+                        ctx.violation("mean tw_* over forecasts close to the observations differs from the mean of the documented values", dict(case, reduce_dims=None),
+                                      float(want), float(v2) if st2 == "ok" else v2)
+                        stop = True
+                        break
+            if stop:
+                break
+        if stop:
+            bad_rounds += 1
+            if bad_rounds >= 3:
+                break
+            continue
+        # the public consistent_* functions with textbook callables: pinball / asymmetric squared error / Huber loss at the same data
+        s = max(abs(v) for v in allv) + 1.0
+        glin = rng.choice([1.0, 3.0, 0.5])
+        gb, gc = lo_d - pad, hi_d + pad
+        g_choices = {"identity": (lambda x: x, lambda q: q, s), "linear": (lambda x: glin * x, lambda q: Fr(glin) * q, 3 * s),
+                     "rect weight antiderivative": (functools.partial(T._g_j_rect, gb, gc), lambda q: orc_g((Fr(gb), Fr(gc)), q), s + abs(gb) + abs(gc))}
+        gname = rng.choice(sorted(g_choices))
+        gpy, gq, gs = g_choices[gname]
+        pk = rng.choice([1.0, 2.0, 0.5])
+        calls = [("consistent_quantile_score", (float(alpha), gpy), False, gs,
+                  lambda f, o: ((1 - alpha) * (gq(f) - gq(o)) if o < f else alpha * (gq(o) - gq(f))), {"g": gname, "alpha": alpha}),
+                 ("consistent_expectile_score", (float(alpha), lambda x: pk * x ** 2, lambda x: 2 * pk * x), True, s * max(1.0, pk) ** 0.5,
+                  lambda f, o: ((1 - alpha) if o < f else alpha) * Fr(pk) * (f - o) ** 2, {"phi": f"{pk} x^2", "alpha": alpha}),
+                 ("consistent_huber_score", (float(hub), lambda x: pk * x ** 2, lambda x: 2 * pk * x), True, s * max(1.0, pk) ** 0.5,
+                  lambda f, o: Fr(pk) * orc_losses(alpha, hub, f, o)[4], {"phi": f"{pk} x^2", "huber_param": float(hub)})]
+        for fn, args, quad, sc, orc, extra in [calls[0], rng.choice(calls[1:])]:
+            st, v = core.call_impl(getattr(C, fn), F, O, *args, preserve_dims="all")
+            case = dict(base, fn=fn, **extra)
+            ctx.case(("neartie", fn, repr(case)))
+            if st != "ok":
+                ctx.violation("consistent_* raised on valid input", case, "values", v)
+                bad_rounds += 1
+                break
+            if not judge(f"{fn} of a forecast close to (not equal to) the observation differs from the documented scoring function (exact oracle at the given floats)",
+                         case, v.sortby("x").values, {i: orc(Fr(fv[i]), Fr(ov[i])) for i in valid}, quad, sc):
+                bad_rounds += 1
+                break
+        if bad_rounds >= 3:
+            break
+        ctx.count("near_tie_rounds")
+    ctx.count("near_tie_decisive_points", decisive)
+
+
 def coord_order_finding(ctx):
     """corpus of repaired defects (5f9b684, 471de49, aeac0ee, 7c177ef): results must not depend on the storage order of a shared coordinate, and
     an end-point pair may mix arrays and Python scalars; a regression is a violation"""
@@ -948,6 +1138,7 @@ def run_without_model(ctx):
     table_b1_oracle(ctx)
     coord_order_finding(ctx)
     guard_probes(ctx)
+    near_tie_props(ctx, ctx.n(30, 300))
     replacement_props(ctx, ctx.n(6, 80))
     perdim_props(ctx, ctx.n(25, 400))
     means_props(ctx, ctx.n(25, 400))
@@ -967,6 +1158,7 @@ def run(ctx):
     kernel_grids(ctx)
     coord_order_finding(ctx)
     guard_probes(ctx)
+    near_tie_props(ctx, ctx.n(30, 300))
     replacement_props(ctx, ctx.n(6, 80))
     perdim_props(ctx, ctx.n(25, 400))
     means_props(ctx, ctx.n(25, 400))
